@@ -297,13 +297,15 @@ def scan(files):
             e = ev["e"]
             if e == "Cfg":
                 cur = {"tag": ev.get("tag", "-"), "drift": 0, "hash": 0, "launched": 0, "drifted": 0, "beh": ev.get("behJson", ""),
-                       "created": 0, "create_failed": 0}
+                       "created": 0, "create_failed": 0, "late_drifted": 0}
                 out.append(cur)
                 launched = set()
             elif e == "Obs":
                 launched = {c["name"] for c in ev["claims"] if c["launched"] == "True" and c["exists"]}
                 cur["launched"] = max(cur["launched"], len(launched))
                 cur["drifted"] = max(cur["drifted"], sum(1 for c in ev["claims"] if c["drifted"] == "True"))
+                if any(c["name"] == "late" and c["drifted"] == "True" for c in ev["claims"]):
+                    cur["late_drifted"] = 1
             elif e == "Begin" and ev["controller"] == "nodeclaim.disruption" and ev["object"] in launched:
                 cur["drift"] += 1
             elif e == "Begin" and ev["controller"] == "nodepool.hash":
